@@ -19,7 +19,9 @@ use std::collections::BTreeMap;
 use std::time::Duration;
 
 pub fn plan(p: &EpParams) -> Plan {
-    let n = if p.engine == "miri" {
+    let n = if let Some(n) = p.get_u64("n") {
+        n
+    } else if p.engine == "miri" {
         2
     } else if tier_thorough(p) {
         if p.transport == "h2" { 8_000 } else { 60_000 }
@@ -40,7 +42,7 @@ pub fn run(p: &EpParams) -> EpReport {
 }
 
 enum Waiter {
-    Pull { max: i32, task: tokio::task::JoinHandle<(u64, Result<Vec<Delivery>, tonic::Status>)>, op_hint: u32 },
+    Pull { max: i32, task: tokio::task::JoinHandle<(u64, Result<Vec<Delivery>, tonic::Status>)>, op_hint: u32, since: Vt },
     Stream { h: StreamHandle, seen: usize },
 }
 
@@ -70,7 +72,7 @@ async fn episode(p: &EpParams) -> EpReport {
                 let cx = Cx::new(&w, next_client);
                 let s2 = s.clone();
                 let task = tokio::spawn(async move { cx.pull_op(&s2, max, false).await });
-                waiters.push(Waiter::Pull { max, task, op_hint: next_client });
+                waiters.push(Waiter::Pull { max, task, op_hint: next_client, since: w.vt() });
                 shape.push(format!("+pull{}", max));
             }
             2 => {
@@ -205,9 +207,12 @@ async fn episode(p: &EpParams) -> EpReport {
         let mut served_now = 0;
         for wt in waiters.drain(..) {
             match wt {
-                Waiter::Pull { max, task, op_hint } => {
+                Waiter::Pull { max, task, op_hint, since } => {
                     if task.is_finished() {
                         if let Ok((_, Ok(ds))) = task.await {
+                            if ds.is_empty() && w.vt().saturating_sub(since) < 299 * SEC {
+                                rep.viol("C15", "C15:empty-blocking-pull", format!("a blocked Pull returned an empty response after {} ms", (w.vt() - since) / MS));
+                            }
                             if ds.len() as i32 > max {
                                 rep.viol("C15", "C15:over-limit:Pull", format!("blocked pull with max {} got {}", max, ds.len()));
                             }
@@ -217,7 +222,7 @@ async fn episode(p: &EpParams) -> EpReport {
                             known_leases.extend(ds.iter().map(|d| d.ack_id.clone()));
                         }
                     } else {
-                        still.push(Waiter::Pull { max, task, op_hint });
+                        still.push(Waiter::Pull { max, task, op_hint, since });
                     }
                 }
                 Waiter::Stream { h, seen } => {
